@@ -1,6 +1,7 @@
 import XlModel.Cfb
 import XlModel.Crypt
 import XlModel.Sha1
+import XlModel.CryptFull
 import XlModel.Generated.Facts
 import XlModel.Drv.Util
 namespace XlModel.Drv.C13
@@ -58,6 +59,20 @@ def allEnts : List Sector → List (Option DirEnt)
   | .dir es :: r => es ++ allEnts r
   | _ :: r => allEnts r
 
+/-- byte regions of the container described through the directory: every stream at or above the cutoff
+and the mini stream container, as `name:start:sectors:fnv(bytes of those sectors)` -/
+def regions (img : Image) : String :=
+  let ents := (allEnts img.secs).filterMap id
+  let one (e : DirEnt) : Option String :=
+    if (e.typ = 2 ∧ e.size ≥ 4096) ∨ (e.typ = 5 ∧ e.size > 0) then
+      let st := e.start.toNat
+      let n := (e.size + 511) / 512
+      let bytes := ((img.secs.drop st).take n).flatMap renderSector
+      some s!"{hexS e.name}:{st}:{n}:{fnv bytes}"
+    else none
+  let rs := ents.filterMap one
+  if rs.isEmpty then "-" else ";".intercalate rs
+
 def parseSizes : List String → Option (List Nat)
   | [] => some []
   | w :: r => match w.toNat?, parseSizes r with
@@ -97,6 +112,7 @@ def step (w : List String) : String :=
           | .error _ => "0"
         s!"len={bytes.length} hdr={h.numFat},{h.firstDir},{h.cutoff},{h.firstMiniFat},{h.numMiniFat},{h.firstDifat},{h.numDifat}"
           ++ s!" hd={rle h.difat} tbl={rle (allWords img.secs)} dir={";".intercalate ((allEnts img.secs).map showEnt)}"
+          ++ s!" hdr76={hexS (((renderHeader img.hdr).take 76).map Char.ofNat)} reg={regions img}"
           ++ s!" h={fnv bytes} rt={rt}"
     | _, _ => "bad-op"
   | ["enc", pw, n, k] =>
@@ -175,6 +191,11 @@ def step (w : List String) : String :=
       | some .zipErr => "other"
       | some .later => "other"
     s!"content={if content then 1 else 0} err={cls}"
+  | ["einfo", sa, ev, eh] =>
+    match unhexS sa, unhexS ev, unhexS eh with
+    | some a, some b, some c =>
+      hexS ((CryptFull.assembleInfo (a.map Char.toNat) (b.map Char.toNat) (c.map Char.toNat)).map Char.ofNat)
+    | _, _, _ => "bad-op"
   | ["u16", pw] =>
     match unhexS pw with
     | some bs =>
